@@ -97,7 +97,8 @@ def check_case(case):
                     pt = s.pull()
                 except Exception as e:  # noqa: BLE001
                     return Outcome(aborted="exception:" + type(e).__name__, classes=classes, rounds=t - 1)
-                arms = [a for a in z.active_points if a.get_point() is pt]
+                arms = [a for a in z.active_points if a.get_point() is pt] or \
+                    [a for a in z.active_points if list(a.get_point()) == list(pt)]
                 if len(arms) != 1:
                     raise Violation("pull-active-arm", "the returned point belongs to %d active arms" % len(arms), t)
                 arm = arms[0]
